@@ -144,6 +144,7 @@ def observe(model, probe):
         out["all"] = np.array(model.all_sensors).tolist()
         w = len(model.ranked_sensors_)
         P = probe[:, :w] if probe.shape[1] >= w else np.pad(probe, ((0, 0), (0, w - probe.shape[1])))
+        impl.sspor_bystander(w, len(sel))      # another model, fitted and used in between, must not influence this one
         out["predict"] = impl.quiet(model.predict, P[:, sel])
         out["score"] = float(impl.quiet(model.score, P))
     except Exception as e:
@@ -156,6 +157,8 @@ def new_model(case, n_value):
     basis = impl.make_basis({"kind": case["basis"], "n_basis_modes": case["bmodes"]}) if not (
         case["basis"] == "Identity" and case["bmodes"] is None) else impl.make_basis({"kind": "Identity"})
     opt = impl.make_optimizer(case["opt"])
+    if case["basis"] == "Identity" and case["bmodes"] is None and case["opt"].get("kind") == "QR":
+        return SSPOR(n_sensors=n_value)          # exactly the constructor defaults: leave them to the constructor
     return SSPOR(basis=basis, optimizer=opt, n_sensors=n_value)
 
 
